@@ -290,6 +290,16 @@ def c03(run: Run):
         enc = pylzma.compress(data, format=pylzma.FORMAT_XZ, check=chk, preset=run.rng.below(7))
         run.add("xz in=%s" % enc.hex(), oracle=exp_ok_out(data), tag="c03:liblzma")
     run.extra_cov["files"] = len(files)
+    crc_cases(run)
+
+
+def crc_cases(run, n=25):
+    """the model's CRC functions are opaque in the proofs: validate them against crate `crc` (and zlib)"""
+    for i in range(n):
+        data = run.rng.bytes(run.rng.pick([0, 1, 2, 9, 100, 1000]))
+        run.add("crc in=%s" % data.hex(), tag="crc",
+                oracle=lambda res, meta, peak, data=data: None if ("crc32=%08x" % crc32(data)) in res and
+                ("crc64=%016x" % core.crc64(data)) in res else "crate crc disagrees with zlib/reference CRC", nontrivial=False)
 
 
 # ----------------------------------------------------------------- C04
